@@ -258,7 +258,7 @@ func genCase(r *core.Rand) *kase {
 }
 
 func (p *prop) Generate(rng *core.Rand, tier string, emit func(string)) {
-	n := 20000
+	n := 16000
 	switch tier {
 	case "thorough":
 		n = 250000
